@@ -21,7 +21,7 @@ from pvc import contract as C  # noqa: E402
 LEVELS = json.load(open(os.path.join(ROOT, "levels.json"))) if os.path.exists(os.path.join(ROOT, "levels.json")) else {}
 
 
-def _job_worker(conn, cid, params, tier, seed, concrete, prop=None, sample=0):
+def _job_worker(conn, cid, params, tier, seed, concrete, prop=None, sample=0, queue=None, slice_paths=None):
     """runs in a forked child"""
     try:
         import logging
@@ -37,9 +37,11 @@ def _job_worker(conn, cid, params, tier, seed, concrete, prop=None, sample=0):
         p = dict(params)
         p["_tier"] = tier
         p["_seed"] = seed
-        ex = Explorer(ct.harness, params=p, seed=seed, **b)
+        ex = Explorer(ct.harness, params=p, seed=seed, initial_queue=queue, slice_paths=slice_paths, **b)
         if prop:
             ex.ignore_label = lambda lab, _p=prop: _other_prop(lab, _p)
+            ex.known_labels = {k.get("label") for k in load_known().get("findings", [])
+                               if k.get("property") == prop and k.get("contract") == cid and k.get("label")}
         t0 = time.time()
         if sample:
             from pvc.explore import Sampler
@@ -56,9 +58,13 @@ def _job_worker(conn, cid, params, tier, seed, concrete, prop=None, sample=0):
                 if sub.error:
                     err = sub.error
                     break
-                if sub.failures:
-                    fails = [f.to_json() for f in sub.failures[:1]]
+                new = [f for f in sub.failures if f.label not in ex.known_labels]
+                if new:
+                    fails = fails + [new[0].to_json()]
                     break
+                for f in sub.failures:
+                    if not any(x["label"] == f.label for x in fails):
+                        fails.append(f.to_json())
             out = dict(failures=fails, error=err, obligations=obl, aborted=nab, sampled_runs=nrun, paths=0)
         elif concrete is not None:
             sub = ex.run_concrete(concrete["inputs"], concrete["choices"])
@@ -70,7 +76,9 @@ def _job_worker(conn, cid, params, tier, seed, concrete, prop=None, sample=0):
                        failures=[f.to_json() for f in ex.failures], error=ex.error,
                        budget_exhausted=ex.budget_exhausted, vc=ex.vc_stats,
                        covered=ex.covered, samples=ex.samples, symbols=len(ex.symbols),
-                       unknown_branches=ex.unknown_branches)
+                       unknown_branches=ex.unknown_branches,
+                       frontier=[list(pf) for pf in ex.queue] if ex.sliced else [],
+                       max_paths=b["max_paths"], timeout_s=b["timeout_s"])
         out["wall"] = time.time() - t0
         conn.send(out)
     except BaseException as e:  # noqa
@@ -80,42 +88,101 @@ def _job_worker(conn, cid, params, tier, seed, concrete, prop=None, sample=0):
         conn.close()
 
 
+SLICE = int(os.environ.get("VERIF_SLICE", "400"))
+
+
+def _merge(a, b):
+    """merge the result of a continuation slice into the root job's result"""
+    if a is None:
+        return b
+    for k in ("paths", "aborted", "unknown_branches", "wall", "sampled_runs"):
+        a[k] = a.get(k, 0) + b.get(k, 0)
+    for k in ("obligations", "covered", "vc"):
+        d = a.setdefault(k, {}) if a.get(k) is not None else {}
+        a[k] = d
+        for kk, v in (b.get(k) or {}).items():
+            d[kk] = d.get(kk, 0) + v
+    a["failures"] = (a.get("failures") or []) + (b.get("failures") or [])
+    a["error"] = a.get("error") or b.get("error")
+    a["budget_exhausted"] = bool(a.get("budget_exhausted") or b.get("budget_exhausted"))
+    a["hard_timeout"] = bool(a.get("hard_timeout") or b.get("hard_timeout"))
+    a["samples"] = ((a.get("samples") or []) + (b.get("samples") or []))[:3]
+    a["symbols"] = max(a.get("symbols", 0), b.get("symbols", 0))
+    return a
+
+
+def _known_labels(prop, cid):
+    return {k.get("label") for k in load_known().get("findings", [])
+            if k.get("property") == prop and k.get("contract") == cid and k.get("label")}
+
+
 def run_jobs(jobs, nproc, hard_timeout):
-    """jobs: list of dict(cid, params, tier, seed, concrete).  returns results in order."""
+    """jobs: list of dict(cid, params, tier, seed, concrete|sample).  A symbolic job is
+    explored in slices: a worker explores SLICE paths and hands its remaining
+    frontier (decision-vector prefixes) back; the frontier is split over the idle
+    workers.  Returns one merged result per job, in order."""
     ctx = mp.get_context("fork")
     results = [None] * len(jobs)
-    pending = list(range(len(jobs)))
+    pending = [dict(j, root=i) for i, j in enumerate(jobs)]
     running = {}
+    root_t0 = {}
+    root_done = set()
+    tick = 0
     while pending or running:
         while pending and len(running) < nproc:
-            i = pending.pop(0)
-            j = jobs[i]
+            j = pending.pop(0)
+            if j["root"] in root_done:
+                continue
+            root_t0.setdefault(j["root"], time.time())
             pc, cc = ctx.Pipe(duplex=False)
-            pr = ctx.Process(target=_job_worker, args=(cc, j["cid"], j["params"], j["tier"], j["seed"], j.get("concrete"), j.get("prop"), j.get("sample", 0)))
+            symbolic = not j.get("concrete") and not j.get("sample")
+            pr = ctx.Process(target=_job_worker, args=(cc, j["cid"], j["params"], j["tier"], j["seed"], j.get("concrete"),
+                                                       j.get("prop"), j.get("sample", 0), j.get("queue"),
+                                                       SLICE if symbolic else None))
             pr.start()
             cc.close()
-            running[i] = (pr, pc, time.time())
-        time.sleep(0.02)
+            tick += 1
+            running[tick] = (pr, pc, time.time(), j)
+        time.sleep(0.01)
         for i in list(running):
-            pr, pc, t0 = running[i]
+            pr, pc, t0, j = running[i]
+            root = j["root"]
+            r = None
             if pc.poll():
                 try:
-                    results[i] = pc.recv()
+                    r = pc.recv()
                 except EOFError:
-                    results[i] = dict(error="worker died without result", failures=[], obligations={}, paths=0, wall=time.time() - t0)
+                    r = dict(error="worker died without result", failures=[], obligations={}, paths=0, wall=time.time() - t0)
                 pr.join(5)
                 if pr.is_alive():
                     pr.kill()
-                del running[i]
             elif not pr.is_alive():
-                results[i] = dict(error="worker died (exit %s)" % pr.exitcode, failures=[], obligations={}, paths=0, wall=time.time() - t0)
-                del running[i]
+                r = dict(error="worker died (exit %s)" % pr.exitcode, failures=[], obligations={}, paths=0, wall=time.time() - t0)
             elif time.time() - t0 > hard_timeout:
                 pr.kill()
                 pr.join(5)
-                results[i] = dict(error=None, hard_timeout=True, failures=[], obligations={}, paths=0, wall=time.time() - t0,
-                                  budget_exhausted=True)
-                del running[i]
+                r = dict(error=None, hard_timeout=True, failures=[], obligations={}, paths=0, wall=time.time() - t0,
+                         budget_exhausted=True)
+            if r is None:
+                continue
+            del running[i]
+            frontier = r.pop("frontier", None) or []
+            results[root] = _merge(results[root], r)
+            agg = results[root]
+            if frontier and root not in root_done:
+                kl = _known_labels(j.get("prop"), j["cid"])
+                stop = any(f["label"] not in kl for f in (agg.get("failures") or [])) or bool(agg.get("error"))
+                over = agg.get("paths", 0) >= r.get("max_paths", 10 ** 9) or (time.time() - root_t0[root]) > r.get("timeout_s", 10 ** 9)
+                if stop:
+                    root_done.add(root)
+                elif over:
+                    agg["budget_exhausted"] = True
+                    root_done.add(root)
+                else:
+                    nchunks = max(1, min(len(frontier), nproc))
+                    chunks = [frontier[k::nchunks] for k in range(nchunks)]
+                    for ch in chunks:
+                        pending.append(dict(j, queue=ch))
     return results
 
 
@@ -138,7 +205,7 @@ def finding_matches(kf, prop, cid, params, failure):
     params subset and a choices prefix: it identifies the specific failing case"""
     if kf.get("property") != prop or kf.get("contract") != cid:
         return False
-    if kf.get("label") and not failure["label"].startswith(kf["label"]):
+    if kf.get("label") and failure["label"] != kf["label"]:
         return False
     for k, v in (kf.get("params") or {}).items():
         if params.get(k) != v:
@@ -146,9 +213,25 @@ def finding_matches(kf, prop, cid, params, failure):
     return True
 
 
+def _preimport():
+    """import the heavy modules once in the parent so forked workers inherit them
+    (failures are left to the workers, where they become obligations)"""
+    import logging
+    logging.disable(logging.CRITICAL)
+    for m in ("z3", "numpy", "pvc.explore", "pvc.models", "pydcop.dcop.relations", "pydcop.dcop.dcop", "pydcop.dcop.objects",
+              "pydcop.infrastructure.computations", "pydcop.algorithms", "pydcop.computations_graph.constraints_hypergraph",
+              "pydcop.computations_graph.factor_graph", "pydcop.computations_graph.pseudotree",
+              "pydcop.computations_graph.ordered_graph"):
+        try:
+            __import__(m)
+        except BaseException:  # noqa
+            pass
+
+
 def check_property(prop, tier="quick", seed=0, only=None, verbose=False, record_baseline=False):
     t_start = time.time()
     reg = C.load_all()
+    _preimport()
     cts = [c for c in reg.values() if prop in c.serves and (only is None or c.cid in only)]
     if not cts:
         print("no contract serves", prop)
@@ -183,6 +266,8 @@ def check_property(prop, tier="quick", seed=0, only=None, verbose=False, record_
     sampled_runs = 0
     for j, r in zip(jobs, results):
         cid = j["cid"]
+        if verbose and not j.get("sample"):
+            print("JOB %s %s paths=%d wall=%.1f budget=%s" % (cid, _short(j["params"]), r.get("paths", 0), r.get("wall", 0), r.get("budget_exhausted")))
         sampled_runs += r.get("sampled_runs", 0)
         pc = per_contract.setdefault(cid, dict(jobs=0, paths=0, wall=0.0, labels=set(), failed=set()))
         pc["jobs"] += 1
